@@ -76,6 +76,8 @@ pub enum Shr {
     Len,
     LenPlus1,
     CapMinus1,
+    /// one more than capacity(): within the table's full capacity when tombstones exist
+    CapPlus1,
 }
 #[derive(Clone, Copy, Debug, PartialEq, Eq, Hash, Serialize, Deserialize)]
 pub enum Ret {
@@ -179,7 +181,7 @@ impl Alphabet {
             clear: true,
             reserve: vec![Res::One, Res::Half, Res::Double],
             shrink_to_fit: true,
-            shrink_to: vec![Shr::Zero, Shr::Len, Shr::LenPlus1, Shr::CapMinus1],
+            shrink_to: vec![Shr::Zero, Shr::Len, Shr::LenPlus1, Shr::CapMinus1, Shr::CapPlus1],
             retain: vec![Ret::All, Ret::None, Ret::EvenIds, Ret::Alternate],
             clone: true,
             raw_entry: false,
@@ -916,6 +918,7 @@ impl<K: KeyT, V: ValT> MapHarness<K, V> {
                     Shr::Len => len,
                     Shr::LenPlus1 => len + 1,
                     Shr::CapMinus1 => cap.saturating_sub(1),
+                    Shr::CapPlus1 => cap + 1,
                 };
                 sut.map.shrink_to(m);
                 chk!(
